@@ -33,7 +33,7 @@ def _G():
 class AbstractDistribution:
     """Any distribution with a density, seen through the two moment queries the grid makes."""
 
-    def __init__(self, S, nintervals):
+    def __init__(self, S, nintervals, partial=False):
         self.S = S
         # the masses of the n-1 grid intervals: non-negative, total mass of [a,b] is 1 (fixed before the code under test runs)
         self.m0s = []
@@ -41,8 +41,12 @@ class AbstractDistribution:
             m0 = S.real('m0_%d' % i)
             S.assume(m0 >= 0)
             self.m0s.append(m0)
-        if nintervals:
+        if nintervals and not partial:
             S.assume(sum(self.m0s) == 1)
+        elif nintervals:
+            # a distribution whose support is larger than the (finite) domain, e.g. a Normal on user-chosen bounds: the domain carries only
+            # part of the probability mass
+            S.assume(sum(self.m0s) <= 1)
         self.k = 0
 
     def get_zeroth_moment(self, x1, x2):
@@ -69,7 +73,7 @@ class _Op:
         return self.d
 
 
-def weights(S, n, boundary, coords):
+def weights(S, n, boundary, coords, partial=False):
     G = _G()
     if coords == 'sym':
         xs = lib.sorted_reals(S, 'x', n)
@@ -78,13 +82,19 @@ def weights(S, n, boundary, coords):
         lv = lib.tree_levels(S, 'tree', n)
         xs = lib.dyadic_coords(lv, 0.0, 1.0)
     a, b = xs[0], xs[-1]
-    dist = AbstractDistribution(S, n - 1)
+    dist = AbstractDistribution(S, n - 1, partial)
+    if partial:
+        # the inner weights are renormalised by their sum: it must not vanish (some mass strictly inside the inner points' reach)
+        S.assume(sum(dist.m0s[1:-1]) > 0)
     grid = G.GlobalTrapezoidalGridWeighted([a], [b], _Op([dist]), boundary=boundary)
     grid.set_grid([list(xs)], [lv])
     w = list(grid.weights[0])  # without boundary: the inner weights
     S.observe('w', w)
     S.prove(sym_and(*[wi >= 0 for wi in w]), 'weights:non-negative')
-    S.prove(S.eq(sum(w), 1), 'weights:sum-to-one')
+    if partial and boundary:
+        S.prove(S.eq(sum(w), sum(dist.m0s)), 'weights:sum-to-the-probability-mass-of-the-domain')
+    else:
+        S.prove(S.eq(sum(w), 1), 'weights:sum-to-one')
     S.prove(len(w) == (n if boundary else n - 2), 'weights:one-per-grid-point')
 
 
@@ -485,6 +495,9 @@ def jobs(tier):
                 continue
             js.append(Job('weights[tree,n=%d,%s]' % (n, 'b' if boundary else 'nb'), weights, {'n': n, 'boundary': boundary, 'coords': 'tree'},
                           validate=(13 if q else 5), budget_s=(600 if q else 3000)))
+            if 4 <= n <= (6 if q else 9):
+                js.append(Job('weights[tree,n=%d,%s,partial-mass]' % (n, 'b' if boundary else 'nb'), weights, {'n': n, 'boundary': boundary, 'coords': 'tree', 'partial': True},
+                              validate=(13 if q else 5), budget_s=(600 if q else 3000)))
     lo, hi = b['uniform: symbolic grid n']
     for n in range(lo, hi + 1):
         for boundary in (True, False):
